@@ -163,6 +163,22 @@ func TestC15_SignVerify(t *testing.T) {
 			if _, err := jwsutil.VerifyJWS(det, jwk, jwsutil.WithJWSDetachedPayload(other)); err == nil {
 				t.Fatalf("C15 %s: detached JWS verified with another payload", k.Name)
 			}
+			// a payload handed over for verification is the payload that is verified, also when the compact form carries one
+			// itself: success means the signature covers the bytes that were handed over
+			if rapid.Bool().Draw(t, "otherPayloadChangedInside") && len(other) > 1 {
+				other = append([]byte{}, payload...)
+				other[rapid.IntRange(0, len(other)-1).Draw(t, "detachedBytePos")] ^= byte(1 << rapid.IntRange(0, 7).Draw(t, "detachedBit"))
+			}
+			if got, err := jwsutil.VerifyJWS(compact, jwk, jwsutil.WithJWSDetachedPayload(other)); err == nil {
+				t.Fatalf("C15 %s: verification of a payload other than the signed one succeeded (compact form with its payload attached, other payload handed over)\n signed  %x\n handed  %x\n returned %x", k.Name, payload, other, got.Payload)
+			}
+			// an empty detached payload is no detached payload: the attached one is verified and returned
+			for _, none := range [][]byte{nil, {}, payload[:0]} {
+				got, err := jwsutil.VerifyJWS(compact, jwk, jwsutil.WithJWSDetachedPayload(none))
+				if err != nil || !bytes.Equal(got.Payload, payload) {
+					t.Fatalf("C15 %s: valid JWS does not verify when an empty detached payload (nil: %v) is passed along: %v", k.Name, none == nil, err)
+				}
+			}
 		}
 		// differential: standard library over the transmitted signing input
 		hb, pb, sb, ok := splitCompact(compact)
